@@ -230,6 +230,7 @@ class PyEval:
         subj = self.expr(st.subject, env0, ev)
         out = []
         neg: list = []
+        seq_seen: list = []
         for case in st.cases:
             env = dict(env0)
             conds = list(neg)
@@ -260,12 +261,39 @@ class PyEval:
                 atom = ('cmp', '==', subj, val)
                 conds.append((atom, True))
                 neg.append((atom, False))
+            elif isinstance(pat, ast.MatchSequence) and subj[0] in ('tuple', 'list') and len(subj[1]) == len(pat.patterns) \
+                    and all(isinstance(sp, ast.MatchSingleton) or (isinstance(sp, ast.MatchValue) and isinstance(sp.value, ast.Constant))
+                            or (isinstance(sp, ast.MatchAs) and sp.pattern is None and sp.name is None) for sp in pat.patterns):
+                # `match (a), (b): case False, True: ..`: a conjunction of literal tests on the components.  The negation of a
+                # conjunction is not a conjunction of literals: later cases carry their own positive tests instead (the cases of
+                # such a table are disjoint), and the fall-through path is dropped when the boolean table is exhaustive.
+                combo = []
+                for el, sp in zip(subj[1], pat.patterns):
+                    if isinstance(sp, ast.MatchAs):
+                        combo.append(None)
+                        continue
+                    cv = sp.value if isinstance(sp, ast.MatchSingleton) else sp.value.value
+                    if isinstance(cv, bool):
+                        conds.append((el, cv))
+                    else:
+                        conds.append((('cmp', '==', el, ('const', cv)), True))
+                    combo.append(cv)
+                seq_seen.append(tuple(combo))
             else:
                 raise Decline(f'match pattern {type(pat).__name__}')
             if case.guard is not None:
                 raise Decline('match guard')
             out.extend(self._block(case.body, [self._fork(p, conds, ev, env=env)]))
             if isinstance(pat, ast.MatchAs) and pat.pattern is None:
+                return out
+        if seq_seen:
+            import itertools as _it
+            k = len(seq_seen[0])
+            covered = set()
+            for combo in seq_seen:
+                if all(c is None or isinstance(c, bool) for c in combo):
+                    covered |= set(_it.product(*[[c] if c is not None else [False, True] for c in combo]))
+            if len(covered) == 2 ** k:
                 return out
         out.append(self._fork(p, neg, ev, env=env0))
         return out
